@@ -1,0 +1,9 @@
+//go:build verif
+
+package document
+
+import bo "github.com/benoitkugler/webrender/html/boxes"
+
+// VerifPageBox exposes the laid-out page box of a rendered page to the external
+// verification harness. Compiled only with -tags verif.
+func (p Page) VerifPageBox() *bo.PageBox { return p.pageBox }
